@@ -4,9 +4,9 @@ from ..harnesses import HEnum, HStory, HItem, body_states, BODY_TOKENS
 from .common import mixed_part
 from ..monitors import ScriptBody
 
-RULE = ('(1) H-ENUM: one-story running orders whose story children are every sequence of length <= B over 19 paragraph kinds '
+RULE = ('(1) H-ENUM: one-story running orders whose story children are every sequence of length <= B over 20 paragraph kinds '
         '(plain, empty, whitespace-only, (round), <angle>, half-open, half-closed, padded bracketed, "()", inner brackets, '
-        'Unicode, padded plain, "(a) and (b)", opening round/closing angle, opening angle/closing round, bracketed over two lines, made of / edged by Unicode white space U+00A0 U+3000), an item and a foreign element; (2) H-STORY closure (moves, swaps, inserts, '
+        'Unicode, padded plain, "(a) and (b)", opening round/closing angle, opening angle/closing round, bracketed over two lines, made of / edged by Unicode white space U+00A0 U+3000, text not in normal form C), an item and a foreign element; (2) H-STORY closure (moves, swaps, inserts, '
         'replaces, deletes, roStorySend with bodies) over stories with per-ID bodies; (3) H-ITEM closure (item insert / replace / delete / move / swap inside a story whose items are interleaved with paragraphs) and every message of all 24 classes from the H-MIXED states, the accessors read on the live object before the merge and checked on the same object after it. Monitor (every state): body = every '
         '<p> (text or \'\') and every item in document order; script = stripped non-empty paragraphs not wrapped in () or <>; '
         'running-order script/body = concatenation in story order - all derived independently from the XML text.')
@@ -25,7 +25,7 @@ BODIES = {
     'AB': (('p', 'angle'), ('p', 'unicode'), ('i', 'a'), ('p', 'empty')),
     'C': (('x', 1), ('p', 'half-open'), ('p', 'ws'), ('i', 'c'), ('p', 'inner')),
     'D': (('p', 'nbsp-edged'), ('i', 'ab'), ('p', 'nbsp-only')),
-    'E': (('p', 'padded'), ('p', 'half-close'), ('p', 'parens-only')),
+    'E': (('p', 'padded'), ('p', 'half-close'), ('p', 'parens-only'), ('p', 'decomposed')),
     'F': (('p', 'mixed-br'), ('p', 'round-angle'), ('p', 'angle-round'), ('p', 'round-multiline'), ('p', 'angle-multiline')),
 }
 SEND_BODIES = ((('p', 'plain'), ('i', 'e'), ('p', 'round')), (('p', 'ws'), ('p', 'unicode')), ())
